@@ -306,6 +306,8 @@ fn cli_sample(rt: &Runtime, rep: &mut StageReport) -> Vec<(serde_json::Value, St
                 1 => Fault::Truncate(0),
                 2 => Fault::Truncate(1),
                 3 => Fault::Truncate(len - 1),
+                // cut exactly behind a frame (what is left is a whole number of valid frames)
+                5 | 7 | 9 if f.chunks.len() >= 3 => { let (off, _h, _t, dl) = f.chunks[1 + (attempts / 2) % (f.chunks.len() - 2)]; Fault::Truncate(off + 4 + dl) }
                 _ => if attempts % 2 == 0 { Fault::Truncate((rng.next() % len as u64) as usize) } else { Fault::Flip((rng.next() % (len as u64 * 8)) as usize) },
             };
             let dir = ctx.case_dir();
